@@ -6,7 +6,7 @@ import ast
 from ..lin import Lin, Infeasible
 from ..avals import *   # noqa
 from ..avals import value_tags
-from ..decide import benign_unknown, Runs, need_ge0, need_eq0, definite, soft, iterations
+from ..decide import require_instances, benign_unknown, Runs, need_ge0, need_eq0, definite, soft, iterations
 from ..report import Ob, PROVED, REFUTED, UNDECIDED, func_where, ASSUMPTIONS, Failure
 from ..model import norm_text, AnalysisError
 from ..units import exc_key
@@ -207,6 +207,8 @@ def check(prog, res, tier):
         return it.call_function(dfi, [msg, cfg, codec(it), hb], {})
     runs_d = Runs(prog, entry_d, summaries={FIELD: field_summary, 'iso8583._pds_to_de': pds_summary}, hooks=common.HOOKS, res=res)
 
+    seen_c = {'pos': 0, 'range': 0, 'bit1': 0}
+
     def chk_c(p, mode):
         fails = []
         st = p.store
@@ -220,13 +222,35 @@ def check(prog, res, tier):
             calls = [x for x in it.user.get('elements', []) if first < x[3] < last]
             li = [e for e in p.events if e.kind == 'loop-iter' and first <= e.seq < last and e.node is head.node]
             bit = li[-1].data.get('elem') if li else None
+            if not isinstance(bit, IntV):
+                # the loop does not run over the element numbers themselves (a table of keys, pairs ...): the element of
+                # this iteration is the one whose message entry 'DE' ++ numeral(n) is looked up
+                ns = []
+                for e in p.events:
+                    if not (first < e.seq < last) or not e.under(dfi.short):
+                        continue
+                    key = None
+                    if e.kind == 'method' and e.data['name'] == 'get' and isinstance(e.data.get('recv'), DictV) and \
+                            e.data['recv'].desc == 'message' and e.data['args']:
+                        key = it.resolve(e.data['args'][0])
+                    elif e.kind == 'getitem' and isinstance(e.data.get('obj'), DictV) and e.data['obj'].desc == 'message':
+                        key = it.resolve(e.data.get('key'))
+                    if isinstance(key, SeqV) and len(key.segs) == 2 and isinstance(key.segs[0], Lit) and key.segs[0].data == 'DE' and \
+                            isinstance(key.segs[1], Num) and key.segs[1].base == 10 and key.segs[1].val is not None:
+                        ns.append(key.segs[1].val)
+                if ns and all(st.decide_eq0(x - ns[0]) is True for x in ns):
+                    bit = IntV(ns[0])
             if len(sets) != len(calls):
                 fails.append(definite(f'in one iteration {len(sets)} bitmap bits are set but {len(calls)} elements are emitted '
                                       f'(bit n must be set iff element n is present)', head.node))
                 continue
             for e, c in zip(sets, calls):
                 idx = e.data['key']
-                if isinstance(bit, IntV) and isinstance(idx, IntV):
+                if not (isinstance(bit, IntV) and isinstance(idx, IntV)):
+                    fails.append(soft('the element number of the loop iteration or the bitmap index is not an integer the '
+                                      'analysis follows', e.node))
+                else:
+                    seen_c['pos'] += mode == 'inv'
                     fails += need_eq0(st, idx.lin - bit.lin + 1, f'bitmap position {st.canon(idx.lin)} is set for element '
                                                                  f'{st.canon(bit.lin)} (bit n lives at index n-1)', e.node)
                 v = it.resolve(e.data['value'])
@@ -265,8 +289,10 @@ def check(prog, res, tier):
             if mode == 'unroll' and got != els:
                 fails.append(definite(f'elements are not appended in emission order: {segs!r}'))
         return fails
-    res.add(runs_d.judge('C02.c', 'message = MTI ++ bitmap(16 raw | 32 hex) ++ elements; bit n set iff element n emitted, in loop order',
-                         func_where(dfi), 'bitmap_values[bit - 1] = True; output_data += _field_to_iso8583(...)', chk_c))
+    res.add(require_instances(
+        runs_d.judge('C02.c', 'message = MTI ++ bitmap(16 raw | 32 hex) ++ elements; bit n set iff element n emitted, in loop order',
+                     func_where(dfi), 'bitmap_values[bit - 1] = True; output_data += _field_to_iso8583(...)', chk_c),
+        seen_c['pos'], 'a bitmap position set next to an emitted element inside the element loop'))
 
     res.add(presence_ob(prog, res, dfi))
     if prog.has_func('iso8583._icc_to_dict'):
@@ -279,11 +305,34 @@ def check(prog, res, tier):
         for e in p.events:
             if e.kind == 'for-iter' and e.under(dfi.short) and isinstance(e.data['iterable'], RangeV):
                 r = e.data['iterable']
+                seen_c['range'] += mode == 'inv'
                 fails += need_eq0(st, Lin.of(r.lo) - 2, f'element loop starts at {r.lo}, not 2', e.node)
                 fails += need_eq0(st, Lin.of(r.hi) - 128, f'element loop ends before {r.hi}, not 128 (elements 2..127)', e.node)
+                if r.step != 1:
+                    fails.append(definite(f'element loop runs with step {r.step}: elements are not visited in ascending order one by one', e.node))
+        if not any(e.kind == 'for-iter' and e.under(dfi.short) and isinstance(e.data['iterable'], RangeV) for e in p.events):
+            # not driven by range(): the elements are those whose message entry is looked up ('DE' ++ numeral of n)
+            for e in p.events:
+                key = None
+                if not e.under(dfi.short):
+                    continue
+                if e.kind == 'method' and e.data['name'] == 'get' and isinstance(e.data.get('recv'), DictV) and \
+                        e.data['recv'].desc == 'message' and e.data['args']:
+                    key = p.interp.resolve(e.data['args'][0])
+                elif e.kind == 'getitem' and isinstance(e.data.get('obj'), DictV) and e.data['obj'].desc == 'message':
+                    key = p.interp.resolve(e.data.get('key'))
+                if isinstance(key, SeqV) and len(key.segs) == 2 and isinstance(key.segs[0], Lit) and key.segs[0].data == 'DE' and \
+                        isinstance(key.segs[1], Num) and key.segs[1].base == 10 and key.segs[1].val is not None:
+                    lo, hi = st.bounds(key.segs[1].val)
+                    seen_c['range'] += mode == 'inv'
+                    if lo is None or hi is None:
+                        fails.append(soft('no bounds derived for the element numbers that are looked up', e.node))
+                    elif (lo, hi) != (2, 127):
+                        fails.append(definite(f'the assembler looks up elements {lo}..{hi}, not 2..127', e.node))
         return fails
-    res.add(runs_d.judge('C02.c', 'the assembler visits elements 2..127 in ascending order', func_where(dfi),
-                         'for bit in range(2, 128)', chk_c2, rule='C02.c.range'))
+    res.add(require_instances(runs_d.judge('C02.c', 'the assembler visits elements 2..127 in ascending order', func_where(dfi),
+                                           'for bit in range(2, 128)', chk_c2, rule='C02.c.range'),
+                              seen_c['range'], 'an element loop over range() or a look-up of message[\'DE\' + n]'))
 
     def chk_c3(p, mode):
         if p.outcome != 'return':
@@ -302,6 +351,8 @@ def check(prog, res, tier):
                     v0 = p.interp.resolve(items[0])
                     if not (isinstance(v0, ConstV) and v0.value is True):
                         fails.append(definite('bit 1 (bitmap present) is not forced on'))
+                else:
+                    fails.append(soft('the entries of the bit list are not known individually: bit 1 forced on is not shown'))
                 return fails
         return [soft('BitArray.fromlist call not found')]
     res.add(runs_d.judge('C02.c', 'the bit list has 128 entries and bit 1 is always set', func_where(dfi),
@@ -343,6 +394,8 @@ def presence_ob(prog, res, dfi):
         return it.call_function(dfi, [msg, common.generic_bit_config(it), codec(it), ConstV(False)], {})
     runs = Runs(prog, entry, summaries={FIELD: field_summary, 'iso8583._pds_to_de': pds_summary}, hooks=common.HOOKS, res=res)
 
+    judged = set()
+
     def chk(p, mode):
         fails = []
         for first, last, s0, s1, head in iterations(p, func=dfi.short):
@@ -352,6 +405,8 @@ def presence_ob(prog, res, dfi):
             if len(set(mine)) != 1:
                 continue
             probe = mine[0]
+            if mode == 'inv':
+                judged.add(probe)
             emitted = [x for x in p.interp.user.get('emitted', []) if first < x < last]
             bits = [e for e in p.events if first < e.seq < last and e.kind == 'setitem' and isinstance(e.data['obj'], ListV)
                     and e.under(dfi.short)]
@@ -362,9 +417,15 @@ def presence_ob(prog, res, dfi):
             if not want and (emitted or bits):
                 fails.append(definite(f'{label} is emitted as an element', head.node))
         return fails
-    return runs.judge('C02.c', 'an element is emitted (and its bit set) for numeric zero values, and not for absent or empty values',
-                      func_where(dfi), "if message.get('DE' + str(bit)) or message.get('DE' + str(bit)) == 0", chk, rule='C02.c.presence',
-                      unknown_ok=benign_unknown)
+    ob = runs.judge('C02.c', 'an element is emitted (and its bit set) for numeric zero values, and not for absent or empty values',
+                    func_where(dfi), "if message.get('DE' + str(bit)) or message.get('DE' + str(bit)) == 0", chk, rule='C02.c.presence',
+                    unknown_ok=benign_unknown)
+    if ob.verdict == PROVED and judged != set(PROBES):
+        # the presence test is not made inside the element loop (a collection built beforehand...): nothing was judged
+        ob.verdict = UNDECIDED
+        ob.detail = ('the presence test of the element value was not observed inside the element loop for the probe values '
+                     f'{sorted(set(PROBES) - judged)}: which values are emitted is not decided')
+    return ob
 
 
 def icc_tag_ob(prog, res):
